@@ -3,6 +3,7 @@
 package kv
 
 import (
+	"context"
 	"fmt"
 	"reflect"
 	"sort"
@@ -38,9 +39,11 @@ func TestZsimC12KV(t *testing.T) {
 }
 
 type c12kvMethod struct {
-	name string
-	kv   reflect.Method
-	ref  reflect.Method
+	name   string
+	kv     reflect.Method
+	ref    reflect.Method
+	kvCtx  *reflect.Method // the context forms, if both sides have one
+	refCtx *reflect.Method
 }
 
 var c12kvMethods []c12kvMethod
@@ -67,7 +70,13 @@ func init() {
 			}
 		}
 		if same && m.Type.NumIn() >= 2 && m.Type.In(1).Kind() == reflect.String {
-			c12kvMethods = append(c12kvMethods, c12kvMethod{m.Name, m, ref})
+			km := c12kvMethod{name: m.Name, kv: m, ref: ref}
+			if kc, ok := st.MethodByName(m.Name + "Ctx"); ok {
+				if rc, ok := rt.MethodByName(m.Name + "Ctx"); ok && kc.Type.NumIn() == rc.Type.NumIn() {
+					km.kvCtx, km.refCtx = &kc, &rc
+				}
+			}
+			c12kvMethods = append(c12kvMethods, km)
 		}
 	}
 }
@@ -254,8 +263,19 @@ func c12kvRun(r *zsim.Run) {
 			r.Probe("ungeneratable_" + m.name)
 			continue
 		}
-		ko := m.kv.Func.Call(append([]reflect.Value{reflect.ValueOf(store)}, args...))
-		ro := m.ref.Func.Call(append([]reflect.Value{reflect.ValueOf(single)}, args...))
+		var ko, ro []reflect.Value
+		if m.kvCtx != nil && o.Intn(8) == 0 {
+			// the context form with a context that is already done: no effect on any server, the context's error back
+			cctx, cancel := context.WithCancel(context.Background())
+			cancel()
+			cargs := append([]reflect.Value{reflect.ValueOf(cctx)}, args...)
+			ko = m.kvCtx.Func.Call(append([]reflect.Value{reflect.ValueOf(store)}, cargs...))
+			ro = m.refCtx.Func.Call(append([]reflect.Value{reflect.ValueOf(single)}, cargs...))
+			r.Probe("kv_ctx_form_with_done_context")
+		} else {
+			ko = m.kv.Func.Call(append([]reflect.Value{reflect.ValueOf(store)}, args...))
+			ro = m.ref.Func.Call(append([]reflect.Value{reflect.ValueOf(single)}, args...))
+		}
 		unordered := strings.HasPrefix(m.name, "S") || strings.HasPrefix(m.name, "HK") || strings.HasPrefix(m.name, "HV")
 		ks, rs := c12kvRender(ko, unordered), c12kvRender(ro, unordered)
 		var as []string
